@@ -1,5 +1,5 @@
 # plan and claim for C01 (SM3 digest and SM3-KDF)
-_CFG = ["avx2", "avx", "sse", "scalar", "nobmi2", "purego"]
+_CFG = ["avx2", "avx", "sse", "scalar", "nobmi2", "purego", "ia32"]
 PLAN = dict(
     level="exploration",
     rule="sum: every length 0..1100 (x content kinds x guard placement) plus seeded long messages up to 64 KiB; history: seeded "
